@@ -302,7 +302,7 @@ def invariant_for_set(eng, s, it, spec, st):
     seen = fresh(kind, "_seen")
     x = fresh(kind.elem, "_x")
     st_it.locals["_seen"] = seen
-    st_it.assume(z3.IsSubset(seen.term, it.term))
+    st_it.assume(kind.subset(seen.term, it.term))
     st_it.assume(z3.Select(it.term, x.term))
     st_it.assume(z3.Not(z3.Select(seen.term, x.term)))
     eval_invariants(eng, spec, st_it, label, s, False)
@@ -606,12 +606,21 @@ def _symbolic_comp(models, eng, e, st, frame, how):
         raise Untranslatable("comprehension element is not an SMT value", e)
     es = elt.kind.sort()
     if how == "set":
-        y = z3.Const(fresh_name("y"), es)
-        S = z3.Lambda([y], z3.Exists(bound, z3.And(guard, elt.term == y)))
-        # simplification when the element is the (single) bound variable of a set generator
+        K = SetK(elt.kind)
         if len(bound) == 1 and elt.term.eq(bound[0]):
-            S = z3.Lambda([bound[0]], guard)
-        return V(SetK(elt.kind), S)
+            # {x for x in S if cond(x)}: definition by the guard itself
+            b0 = bound[0]
+            src = []
+            g0 = guard.arg(0) if z3.is_and(guard) and guard.num_args() > 0 else guard
+            if z3.is_app(g0) and g0.decl().kind() == z3.Z3_OP_SELECT:
+                src = [g0.arg(0)]
+            C = K.define(st, lambda x: z3.substitute(guard, (b0, x)), "setcomp", src)
+            return V(K, C)
+        C = z3.Const(fresh_name("setcomp"), K.sort())
+        y = z3.Const(fresh_name("y"), es)
+        st.assume(z3.ForAll([y], z3.Select(C, y) == z3.Exists(bound, z3.And(guard, elt.term == y)), patterns=[z3.Select(C, y)]))
+        st.assume(z3.ForAll(bound, z3.Implies(guard, z3.Select(C, elt.term))))
+        return V(K, C)
     # list: order-preserving map when there is a single unfiltered sequence generator
     single = len(gens) == 1 and not gens[0].ifs and bound[0].sort() == z3.IntSort() and not isinstance(
         eng.to_smt(_eval_pure(eng, gens[0].iter, st, dict(frame)), st).kind if isinstance(eng.to_smt(_eval_pure(eng, gens[0].iter, st, dict(frame)), st), V) else None, SetK)
@@ -622,7 +631,20 @@ def _symbolic_comp(models, eng, e, st, frame, how):
         n = sym_sequence(eng, it, st)[0]
         st.assume(K.len(r.term) == n)
         i = bound[0]
-        st.assume(z3.ForAll([i], z3.Implies(z3.And(i >= 0, i < n), K.at(r.term, i) == elt.term), patterns=[K.at(r.term, i)]))
+        src_elem = sym_sequence(eng, it, st)[1](i)
+        pats = [K.at(r.term, i)]
+        body1 = z3.Implies(z3.And(i >= 0, i < n), z3.And(K.at(r.term, i) == elt.term, K.contains(r.term, elt.term)))
+        st.assume(z3.ForAll([i], body1, patterns=[K.at(r.term, i)]))
+        if isinstance(src_elem, V):
+            try:
+                st.assume(z3.ForAll([i], body1, patterns=[src_elem.term]))
+            except z3.Z3Exception:
+                pass
+        src = z3.Function(fresh_name("mapsrc"), es, z3.IntSort())
+        y = z3.Const(fresh_name("y"), es)
+        elt_at_src = z3.substitute(elt.term, (i, src(y)))
+        st.assume(z3.ForAll([y], z3.Implies(K.contains(r.term, y), z3.And(src(y) >= 0, src(y) < n, elt_at_src == y)),
+                            patterns=[K.contains(r.term, y)]))
         return r
     # filtered / nested: characterise membership only (order and multiplicity abstracted)
     y = z3.Const(fresh_name("y"), es)
